@@ -533,6 +533,7 @@ func (s *system) Checks() int64   { return s.obs.Checks }
 func (s *system) Terminal() bool  { return false }
 func (s *system) Close() {
 	for i, n := range s.nodes {
+		n.VerifShardManager().VerifCloseAllShards()
 		if s.alive[i] {
 			n.Close()
 		}
